@@ -1,9 +1,17 @@
 (* C14's token-level statement for the concrete stack AND the reference tokenizer of Spec/LuaLex.v:
    the chunking hypotheses of Proofs/ReqEmbedProofs.build_code_tokens are discharged by
-   Proofs/SpecLexChunk.v, the side conditions on build.py's regenerated constants by computation.
-   What remains assumed is the token-faithful echo of the lexer model (property C06). *)
-From PV Require Import Base.Prelude Spec.LuaLex Instances.HoldsC01 Generated.T_files_build
-  Model.ReqEmbed Model.ReqEmbedInst Proofs.ReqEmbedProofs Proofs.ReqEmbedInstProofs Proofs.SpecLexChunk.
+   Proofs/SpecLexChunk.v, the side conditions on build.py's regenerated constants by computation, and
+   the token-faithful echo by property C06's theorems about the lexer model (Proofs/EchoProofs.v:
+   model_holds_C06, echo_crlf_only; Proofs/LexerChunk.v: model_lex_chunking) together with
+   SpecLexChunk.holds_C06_sig_views - for line lists whose lines end in a line feed (all but the last)
+   and consist of bytes. *)
+From PV Require Import Base.Prelude Spec.LuaLex Instances.HoldsC01 Instances.HoldsC06 Generated.T_lexer Generated.T_files_build
+  Model.Lexer Model.EchoWriter Proofs.LexerProofs Proofs.LexerChunk Proofs.EchoProofs
+  Model.ReqEmbed Model.ReqEmbedInst Proofs.ReqEmbedProofs Proofs.ReqEmbedInstProofs Proofs.SpecLexChunk
+  Proofs.ReqEmbedEchoGood Proofs.LexerView Proofs.EchoStable Proofs.LuaLexFacts.
+Close Scope pm_scope.
+
+Notation view := (Z * list Z * Z * Z * Z)%type.
 
 Lemma ends_with_nl_last_lf a : ends_with_nl a = true -> a = [] \/ last a 0 = 10.
 Proof. intros H. apply ends_with_nl_last in H. destruct H as (r & ->). right. apply last_last. Qed.
@@ -14,61 +22,278 @@ Proof. intros H. apply sig_views_app, ends_with_nl_last_lf, H. Qed.
 
 (* the regenerated preambles and the closing line are in the dialect *)
 Lemma constants_lex :
-  Forall (lexes (Z * list Z * Z * Z * Z) sig_views) require_lua_preamble_package /\
-  Forall (lexes (Z * list Z * Z * Z * Z) sig_views) require_lua_preamble_require /\
-  lexes (Z * list Z * Z * Z * Z) sig_views end_line_now.
+  Forall (lexes view sig_views) require_lua_preamble_package /\
+  Forall (lexes view sig_views) require_lua_preamble_require /\
+  lexes view sig_views end_line_now.
 Proof.
   unfold lexes. repeat split; repeat constructor; vm_compute; discriminate.
 Qed.
 
-Lemma build_code_tokens_spec :
-  (forall ls q t, from_lines ls = Ok q -> sig_views (concat ls) = Some t -> sig_views (concat (echo_lines q)) = Some t) ->
-  forall cwd fs lua_path fuel main_path main_content out,
-  build_code_now cwd fs lua_path fuel main_path main_content = Ok out ->
-  exists r pk, build_lua_now cwd fs lua_path fuel main_path main_content = Ok (r, pk) /\
-    let toks := toks (Z * list Z * Z * Z * Z) sig_views in
-    let lexes := lexes (Z * list Z * Z * Z * Z) sig_views in
-    (Forall (fun e => lexes (header_line_now (fst e)) /\ lexes (concat (echo_lines (snd e)))) pk ->
-     lexes main_content ->
-     sig_views out = Some match pk with
-                          | [] => toks main_content
-                          | _ => concat (map toks require_lua_preamble_package)
-                                 ++ concat (map (fun e => toks (header_line_now (fst e))
-                                                          ++ toks (concat (echo_lines (snd e))) ++ toks end_line_now) pk)
-                                 ++ concat (map toks require_lua_preamble_require) ++ toks main_content
-                          end).
+(* ---------- the echo of the lexer model, on good line lists ---------- *)
+Lemma echo_toks_concat ts : forall cur pending, (pending = false -> cur = []) ->
+  concat (echo_toks ts cur pending) = cur ++ concat (map tok_code ts).
 Proof.
-  intros Hecho cwd fs lua_path fuel mp mc out H.
-  destruct (build_code_tokens_now (Z * list Z * Z * Z * Z) sig_views sig_views_chunking sig_views_final_lf sig_views_nil Hecho
-              cwd fs lua_path fuel mp mc out H) as (r & pk & Hb & Ht).
-  exists r, pk. split; [exact Hb|]. cbv zeta in *. intros Hpk Hmc.
-  destruct constants_lex as (H1 & H2 & H3). apply Ht; assumption.
+  induction ts as [|t r IH]; intros cur pending Hp; cbn [echo_toks map concat].
+  - destruct pending; [cbn; rewrite !app_nil_r; reflexivity | rewrite (Hp eq_refl); reflexivity].
+  - destruct (t_kind t); try (rewrite IH by discriminate; rewrite <- app_assoc; reflexivity).
+    cbn [concat]. rewrite IH by reflexivity. cbn [app]. rewrite <- app_assoc. reflexivity.
 Qed.
 
-(* the same with the remaining hypothesis put in the form of property C06's predicate: the echo of every
-   text the build lexes satisfies holds_C06 (Instances/HoldsC06.v; C06 proves this of the lexer model for
-   texts given as lines ending in LF), and has no lone carriage return when the text is in the dialect *)
-From PV Require Import Instances.HoldsC06.
+Lemma echo_views ls q t :
+  good_lines ls -> from_lines ls = Ok q -> sig_views (concat ls) = Some t ->
+  sig_views (concat (ReqEmbedInst.echo_lines q)) = Some t.
+Proof.
+  intros [Hlf HB] Hq Ht. unfold from_lines in Hq.
+  destruct (model_lex ls) as [ts|e] eqn:Hm; [|discriminate]. cbn [bind] in Hq.
+  destruct (ParserInst.lua_parse _) as [[root p]|e]; [|discriminate]. cbn [bind] in Hq. injection Hq as <-.
+  unfold ReqEmbedInst.echo_lines. cbn [l_toks]. rewrite echo_toks_concat by reflexivity. cbn [app].
+  rewrite (model_lex_chunking ls Hlf) in Hm.
+  assert (Hs : exists ss, spec_lex (concat ls) = Some ss).
+  { unfold sig_views, spec_toks in Ht. destruct (spec_lex (concat ls)) as [ss|]; [eexists; reflexivity | discriminate]. }
+  destruct Hs as (ss & Hs).
+  pose proof (model_holds_C06 (concat ls) HB) as H06. unfold echo_source in H06. rewrite Hm in H06.
+  destruct (echo_crlf_only (concat ls) ss HB Hs) as (lines & Hl & Hcr). unfold echo_source in Hl. rewrite Hm in Hl.
+  injection Hl as <-. rewrite echo_concat in H06, Hcr.
+  exact (holds_C06_sig_views _ _ _ H06 Hcr Ht).
+Qed.
 
-Lemma build_code_tokens_spec_c06 :
-  (forall ls q, from_lines ls = Ok q -> holds_C06 (concat ls) (concat (echo_lines q)) = true) ->
-  (forall ls q t, from_lines ls = Ok q -> sig_views (concat ls) = Some t ->
-                  crlf_only (concat (echo_lines q)) = true) ->
+(* iterating a binary file gives a good line list *)
+Lemma removelast_cons_good (x : bytes) l : ends_lf x -> Forall ends_lf (removelast l) -> Forall ends_lf (removelast (x :: l)).
+Proof. intros Hx Hl. destruct l; [constructor|]. change (removelast (x :: l :: l0)) with (x :: removelast (l :: l0)). constructor; assumption. Qed.
+
+Lemma file_lines_from_lf s : forall cur, Forall ends_lf (removelast (file_lines_from s cur)).
+Proof.
+  induction s as [|c r IH]; intros cur; cbn [file_lines_from].
+  - destruct cur; constructor.
+  - destruct (c =? 10) eqn:E; [|apply IH]. apply Z.eqb_eq in E. subst c. apply removelast_cons_good; [|apply IH].
+    exists (rev cur). unfold rev'. rewrite <- rev_alt. reflexivity.
+Qed.
+
+Lemma file_lines_good c : Forall byte c -> good_lines (file_lines c).
+Proof. intros H. split; [apply file_lines_from_lf | rewrite file_lines_concat; exact H]. Qed.
+
+Lemma build_code_tokens_spec :
   forall cwd fs lua_path fuel main_path main_content out,
   build_code_now cwd fs lua_path fuel main_path main_content = Ok out ->
   exists r pk, build_lua_now cwd fs lua_path fuel main_path main_content = Ok (r, pk) /\
-    let toks := toks (Z * list Z * Z * Z * Z) sig_views in
-    let lexes := lexes (Z * list Z * Z * Z * Z) sig_views in
-    (Forall (fun e => lexes (header_line_now (fst e)) /\ lexes (concat (echo_lines (snd e)))) pk ->
-     lexes main_content ->
+    let toks := toks view sig_views in
+    let lexes := lexes view sig_views in
+    (Forall (fun e => lexes (header_line_now (fst e)) /\ lexes (concat (ReqEmbedInst.echo_lines (snd e)))) pk ->
+     lexes main_content -> Forall byte main_content ->
+     (forall m, from_lines (file_lines main_content) = Ok m ->
+                good_lines (prepend_lines lua ReqEmbedInst.echo_lines require_lua_preamble_package
+                                          require_lua_preamble_require header_line_now end_line_now nl_line_now m pk)) ->
      sig_views out = Some match pk with
                           | [] => toks main_content
                           | _ => concat (map toks require_lua_preamble_package)
                                  ++ concat (map (fun e => toks (header_line_now (fst e))
-                                                          ++ toks (concat (echo_lines (snd e))) ++ toks end_line_now) pk)
+                                                          ++ toks (concat (ReqEmbedInst.echo_lines (snd e))) ++ toks end_line_now) pk)
                                  ++ concat (map toks require_lua_preamble_require) ++ toks main_content
                           end).
 Proof.
-  intros H06 Hcr. apply build_code_tokens_spec. intros ls q t Hq Ht.
-  eapply holds_C06_sig_views; [apply H06, Hq | eapply Hcr; eassumption | exact Ht].
+  intros cwd fs lua_path fuel mp mc out H.
+  destruct (build_code_tokens_now view sig_views good_lines sig_views_chunking sig_views_final_lf sig_views_nil
+              (fun ls q t Hg Hq Ht => echo_views ls q t Hg Hq Ht)
+              cwd fs lua_path fuel mp mc out H) as (r & pk & Hb & Ht).
+  exists r, pk. split; [exact Hb|]. cbv zeta in *. intros Hpk Hmc HB Hgood.
+  destruct constants_lex as (H1 & H2 & H3). apply Ht; try assumption. apply file_lines_good, HB.
+Qed.
+
+(* ---------- the line list handed to the final parse is good ---------- *)
+Lemma ends_with_nl_ends_lf x : ends_with_nl x = true <-> ends_lf x.
+Proof. unfold ends_lf. apply ends_with_nl_last. Qed.
+
+Lemma removelast_app_lf (X M : list bytes) :
+  Forall ends_lf X -> Forall ends_lf (removelast M) -> Forall ends_lf (removelast (X ++ M)).
+Proof.
+  intros HX HM. destruct M as [|m M'].
+  - rewrite app_nil_r. clear HM. induction HX as [|x X Hx _ IH]; [constructor|]. apply removelast_cons_good; assumption.
+  - rewrite removelast_app by discriminate. apply Forall_app. split; assumption.
+Qed.
+
+(* what the theorem needs to know about one entry of the package table *)
+Definition pkg_shape (e : bytes * lua) : Prop :=
+  Forall byte (header_line_now (fst e)) /\
+  good_lines (ReqEmbedInst.echo_lines (snd e)) /\
+  (ReqEmbedInst.echo_lines (snd e) = [] \/ ends_lf (last (ReqEmbedInst.echo_lines (snd e)) [])).
+
+Notation block_now := (block lua ReqEmbedInst.echo_lines header_line_now end_line_now nl_line_now).
+
+Lemma block_lf e : pkg_shape e -> Forall ends_lf (block_now e) /\ Forall byte (concat (block_now e)).
+Proof.
+  intros (Hh & [Hlf Hb] & Hlast). unfold block. cbn [fst snd].
+  set (body := ReqEmbedInst.echo_lines (snd e)) in *. set (hdr := header_line_now (fst e)) in *.
+  assert (Hhdr : ends_lf hdr) by (apply ends_with_nl_ends_lf, header_line_now_nl).
+  assert (Hbody : Forall ends_lf body /\ ends_with_nl (last body hdr) = true).
+  { destruct Hlast as [E|Hl].
+    - rewrite E. split; [constructor | apply ends_with_nl_ends_lf; exact Hhdr].
+    - destruct body as [|b0 body'] eqn:Eb; [split; [constructor | apply ends_with_nl_ends_lf; exact Hhdr]|].
+      rewrite <- Eb in *. assert (Hne : body <> []) by (rewrite Eb; discriminate).
+      destruct (exists_last Hne) as (pre & x & Ex). rewrite Ex in *. rewrite removelast_last in Hlf. rewrite last_last in *.
+      split; [apply Forall_app; split; [exact Hlf | constructor; [exact Hl | constructor]] | apply ends_with_nl_ends_lf, Hl]. }
+  destruct Hbody as (Hall & Hnl). rewrite Hnl. cbn [app]. split.
+  - constructor; [exact Hhdr|]. apply Forall_app. split; [exact Hall|].
+    constructor; [apply ends_with_nl_ends_lf; reflexivity | constructor].
+  - cbn [concat]. rewrite concat_app. apply Forall_app. split; [exact Hh|]. apply Forall_app. split; [exact Hb|].
+    cbn. repeat constructor; unfold byte; lia.
+Qed.
+
+Lemma constants_good :
+  Forall ends_lf require_lua_preamble_package /\ Forall byte (concat require_lua_preamble_package) /\
+  Forall ends_lf require_lua_preamble_require /\ Forall byte (concat require_lua_preamble_require).
+Proof.
+  destruct constants_nl as (_ & _ & Hpp & Hpr).
+  repeat split.
+  - eapply Forall_impl; [|exact Hpp]. intros x. apply ends_with_nl_ends_lf.
+  - apply all_bytes_Forall. vm_compute. reflexivity.
+  - eapply Forall_impl; [|exact Hpr]. intros x. apply ends_with_nl_ends_lf.
+  - apply all_bytes_Forall. vm_compute. reflexivity.
+Qed.
+
+Lemma prepend_good m pk :
+  Forall pkg_shape pk -> good_lines (ReqEmbedInst.echo_lines m) ->
+  good_lines (prepend_lines lua ReqEmbedInst.echo_lines require_lua_preamble_package require_lua_preamble_require
+                            header_line_now end_line_now nl_line_now m pk).
+Proof.
+  intros Hpk [Hmlf Hmb]. destruct constants_good as (A1 & A2 & C1 & C2). unfold prepend_lines.
+  assert (Hblocks : Forall ends_lf (flat_map block_now pk) /\ Forall byte (concat (flat_map block_now pk))).
+  { induction Hpk as [|e pk He _ IH]; [split; constructor|]. destruct (block_lf e He) as (B1 & B2). destruct IH as (I1 & I2).
+    cbn [flat_map]. split; [apply Forall_app; split; assumption|]. rewrite concat_app. apply Forall_app. split; assumption. }
+  destruct Hblocks as (B1 & B2). split.
+  - rewrite !app_assoc. apply removelast_app_lf; [|exact Hmlf].
+    apply Forall_app; split; [apply Forall_app; split; [exact A1 | exact B1] | exact C1].
+  - rewrite !concat_app. apply Forall_app; split; [exact A2|]. apply Forall_app; split; [exact B2|].
+    apply Forall_app; split; [exact C2 | exact Hmb].
+Qed.
+
+(* the echo of the main program / of a package embedded with its game loop is a good line list *)
+Lemma from_lines_model_lex ls q : from_lines ls = Ok q -> model_lex ls = Ok (l_toks q).
+Proof.
+  unfold from_lines. destruct (model_lex ls) as [ts|e]; [|discriminate]. cbn [bind].
+  destruct (ParserInst.lua_parse _) as [[root p]|e]; [|discriminate]. cbn [bind]. intros [= <-]. reflexivity.
+Qed.
+
+Lemma lexes_spec_lex c : lexes view sig_views c -> spec_lex c <> None.
+Proof. unfold lexes, sig_views, spec_toks. destruct (spec_lex c); [discriminate | intros H; exfalso; apply H; reflexivity]. Qed.
+
+Lemma file_echo_good c q : Forall byte c -> lexes view sig_views c -> from_lines (file_lines c) = Ok q ->
+  good_lines (ReqEmbedInst.echo_lines q).
+Proof.
+  intros HB Hl Hq. unfold ReqEmbedInst.echo_lines.
+  apply (dialect_echo_good (file_lines c)); [apply file_lines_good, HB | rewrite file_lines_concat; apply lexes_spec_lex, Hl
+                                             | apply from_lines_model_lex, Hq].
+Qed.
+
+(* ---------- the token-level clause, concrete stack, reference tokenizer ---------- *)
+Lemma build_code_tokens_full :
+  forall cwd fs lua_path fuel main_path main_content out,
+  build_code_now cwd fs lua_path fuel main_path main_content = Ok out ->
+  exists r pk, build_lua_now cwd fs lua_path fuel main_path main_content = Ok (r, pk) /\
+    let toks := toks view sig_views in
+    let lexes := lexes view sig_views in
+    (lexes main_content -> Forall byte main_content ->
+     Forall (fun e => lexes (header_line_now (fst e)) /\ lexes (concat (ReqEmbedInst.echo_lines (snd e))) /\ pkg_shape e) pk ->
+     sig_views out = Some match pk with
+                          | [] => toks main_content
+                          | _ => concat (map toks require_lua_preamble_package)
+                                 ++ concat (map (fun e => toks (header_line_now (fst e))
+                                                          ++ toks (concat (ReqEmbedInst.echo_lines (snd e))) ++ toks end_line_now) pk)
+                                 ++ concat (map toks require_lua_preamble_require) ++ toks main_content
+                          end).
+Proof.
+  intros cwd fs lua_path fuel mp mc out H.
+  destruct (build_code_tokens_spec cwd fs lua_path fuel mp mc out H) as (r & pk & Hb & Ht).
+  exists r, pk. split; [exact Hb|]. cbv zeta in *. intros Hmc HB Hpk. apply Ht; [|exact Hmc | exact HB|].
+  - eapply Forall_impl; [|exact Hpk]. intros e (H1 & H2 & _). split; assumption.
+  - intros m Hm. apply prepend_good; [|eapply file_echo_good; eassumption].
+    eapply Forall_impl; [|exact Hpk]. intros e (_ & _ & H3). exact H3.
+Qed.
+
+(* ---------- a package embedded with its game loop, from a file of the dialect that ends in a newline (or is
+   empty), meets the per-package conditions ---------- *)
+Lemma echo_toks_nonempty ts : Forall (fun t => tok_code t <> []) ts -> forall cur pending,
+  (pending = true -> cur <> []) -> Forall (fun x => x <> []) (echo_toks ts cur pending).
+Proof.
+  induction 1 as [|t r Ht _ IH]; intros cur pending Hp; cbn [echo_toks].
+  - destruct pending; [constructor; [apply Hp; reflexivity | constructor] | constructor].
+  - assert (Hne : cur ++ tok_code t <> []) by (intros E; apply app_eq_nil in E; destruct E; contradiction).
+    destruct (t_kind t); try (apply IH; intros _; exact Hne).
+    constructor; [exact Hne | apply IH; discriminate].
+Qed.
+
+Lemma last_concat (lines : list bytes) : lines <> [] -> Forall (fun x => x <> []) lines ->
+  last (concat lines) 0 = last (last lines []) 0.
+Proof.
+  intros Hne Hall. destruct (exists_last Hne) as (pre & x & ->). rewrite last_last, concat_app. cbn [concat].
+  rewrite app_nil_r. apply Forall_app in Hall. destruct Hall as [_ Hx]. inversion Hx; subst.
+  apply last_app_ne. assumption.
+Qed.
+
+Lemma ends_lf_last x : ends_lf x <-> x <> [] /\ last x 0 = 10.
+Proof.
+  split.
+  - intros (a & ->). split; [destruct a; discriminate | apply last_last].
+  - intros (Hne & Hl). destruct (exists_last Hne) as (a & c & ->). rewrite last_last in Hl. subst c. exists a. reflexivity.
+Qed.
+
+Lemma chain_last_newline a ta : chain a ta -> a <> [] -> last a 0 = 10 ->
+  exists pre t, ta = pre ++ [t] /\ s_kind t = SNewline /\ last (s_raw t) 0 = 10.
+Proof.
+  induction 1 as [|s t rest ts Hs Hc IH]; intros Hne Hlast; [congruence|].
+  destruct (LuaLexFacts.spec_step_split _ _ _ Hs) as (Hsplit & Hraw).
+  destruct rest as [|c r0].
+  - apply chain_nil_inv in Hc. subst ts. exists [], t. split; [reflexivity|].
+    destruct (step_end_lf _ _ Hs Hlast) as [-> | ->]; cbn in Hs; injection Hs as <-; split; reflexivity.
+  - destruct IH as (pre & t' & -> & Hk & Hl); [discriminate | rewrite Hsplit, last_app_ne in Hlast by discriminate; exact Hlast|].
+    exists (t :: pre), t'. split; [reflexivity | split; assumption].
+Qed.
+
+Lemma unstripped_pkg_ok c q :
+  Forall byte c -> lexes view sig_views c -> (c = [] \/ ends_lf c) -> from_lines (file_lines c) = Ok q ->
+  lexes view sig_views (concat (ReqEmbedInst.echo_lines q)) /\
+  toks view sig_views (concat (ReqEmbedInst.echo_lines q)) = toks view sig_views c /\
+  good_lines (ReqEmbedInst.echo_lines q) /\
+  (ReqEmbedInst.echo_lines q = [] \/ ends_lf (last (ReqEmbedInst.echo_lines q) [])).
+Proof.
+  intros HB Hl Hend Hq.
+  assert (Hv : sig_views (concat (ReqEmbedInst.echo_lines q)) = Some (toks view sig_views c)).
+  { apply (echo_views (file_lines c)); [apply file_lines_good, HB | exact Hq|].
+    rewrite file_lines_concat. apply lexes_toks, Hl. }
+  split; [unfold lexes; rewrite Hv; discriminate|]. split; [unfold toks at 1; rewrite Hv; reflexivity|].
+  split; [eapply file_echo_good; eassumption|].
+  pose proof (from_lines_model_lex _ _ Hq) as Hm. unfold ReqEmbedInst.echo_lines.
+  destruct Hend as [-> | Hlf].
+  - left. cbn in Hm. injection Hm as <-. reflexivity.
+  - right. apply ends_lf_last in Hlf. destruct Hlf as (Hne & Hlast).
+    (* the tokens: classes and codes of the reference tokens, the last of which is the line feed *)
+    pose proof (lexes_spec_lex _ Hl) as Hs. destruct (spec_lex c) as [ss|] eqn:Es; [|congruence].
+    pose proof (file_lines_good c HB) as [Hg _].
+    pose proof Hm as Hm1. rewrite (model_lex_chunking _ Hg), file_lines_concat in Hm1.
+    destruct (LexerView.lex_agrees_code c ss HB Es) as (ts' & Hm' & Hcodes & _). rewrite Hm1 in Hm'. injection Hm' as <-.
+    assert (Hc : chain c (map unpos ss)) by (apply (spec_toks_chain c); unfold spec_toks; rewrite Es; reflexivity).
+    destruct (chain_last_newline _ _ Hc Hne Hlast) as (pre & t & Epre & Hk & Hrl).
+    set (lines := echo_toks (l_toks q) [] false).
+    assert (Hcat : concat lines = concat (map LexerView.spec_code ss)).
+    { unfold lines. rewrite echo_toks_concat by reflexivity. cbn [app].
+      apply (f_equal (map snd)) in Hcodes. rewrite !map_map in Hcodes. cbn [snd] in Hcodes.
+      exact (f_equal (@concat Z) Hcodes). }
+    assert (Hnel : Forall (fun x => x <> []) lines).
+    { apply echo_toks_nonempty; [|discriminate]. eapply EchoStable.model_lex_code_ne, Hm. }
+    assert (Hlc : last (concat lines) 0 = 10 /\ concat lines <> []).
+    { rewrite Hcat. (* the last reference token is the newline *)
+      assert (Ess : exists pre0 t0, ss = pre0 ++ [t0] /\ s_kind t0 = SNewline /\ last (s_raw t0) 0 = 10 /\ s_raw t0 <> []).
+      { destruct (exists_last (l := ss)) as (pre0 & t0 & E0).
+        - intros E. subst ss. cbn in Epre. destruct pre; discriminate Epre.
+        - exists pre0, t0. split; [exact E0|]. subst ss. rewrite map_app in Epre. cbn [map] in Epre.
+          apply app_inj_tail in Epre. destruct Epre as [_ Et]. subst t. cbn [unpos s_kind s_raw] in *.
+          repeat split; try assumption. intros E. rewrite E in Hrl. discriminate. }
+      destruct Ess as (pre0 & t0 & -> & Hk0 & Hl0 & Hne0). rewrite map_app, concat_app. cbn [map concat]. rewrite app_nil_r.
+      assert (Ec : LexerView.spec_code t0 = s_raw t0) by (unfold LexerView.spec_code; rewrite Hk0; reflexivity).
+      rewrite Ec. split; [rewrite last_app_ne by exact Hne0; exact Hl0|].
+      intros E. apply app_eq_nil in E. destruct E. contradiction. }
+    destruct Hlc as (Hl10 & Hcne).
+    assert (Hlne : lines <> []) by (intros E; rewrite E in Hcne; apply Hcne; reflexivity).
+    apply ends_lf_last. rewrite <- (last_concat lines Hlne Hnel). split; [|exact Hl10].
+    destruct (exists_last Hlne) as (pl & x & El). fold lines. rewrite El, last_last. rewrite El in Hnel.
+    apply Forall_app in Hnel. destruct Hnel as [_ Hx]. inversion Hx; assumption.
 Qed.
